@@ -134,6 +134,25 @@ Fixpoint apply_chain (l : list rigid) (p : vec3) : vec3 :=
 Fixpoint apply_chain_pose (l : list rigid) (pr : vec3 * quat) : vec3 * quat :=
   match l with [] => pr | T :: t => apply_chain_pose t (apply_pose T pr) end.
 
+(* The same folds with every intermediate result written in lowest terms (Qred).  Q arithmetic does
+   not cancel common factors, so without this the numerators of a 5-step chain have millions of
+   digits; these are the functions the correspondence evaluates.  Proofs/TransformProofs.v shows they
+   return the same values (component-wise ==, same labels, same errors) as the plain folds above. *)
+Definition vred (v : vec3) : vec3 := mkVec (Qred (vx v)) (Qred (vy v)) (Qred (vz v)).
+Definition qred (q : quat) : quat := mkQuat (Qred (qw q)) (Qred (qx q)) (Qred (qy q)) (Qred (qz q)).
+Definition rigid_red (T : rigid) : rigid := mkRigid (qred (rq T)) (vred (rt T)) (rsrc T) (rdst T).
+Definition pose_red (pr : vec3 * quat) : vec3 * quat := (vred (fst pr), qred (snd pr)).
+Fixpoint chain_from_n (acc : rigid) (l : list rigid) : dot_result :=
+  match l with
+  | [] => DotOk acc
+  | T :: t => match transform_matrix acc T with
+              | DotOk acc' => chain_from_n (rigid_red acc') t
+              | DotValueError => DotValueError
+              end
+  end.
+Fixpoint apply_chain_pose_n (l : list rigid) (pr : vec3 * quat) : vec3 * quat :=
+  match l with [] => pr | T :: t => apply_chain_pose_n t (pose_red (apply_pose T pr)) end.
+
 (* ------------------------------------------------------------------------------------------ *)
 (* frame keys: a str (inl) or a FrameID member given by its key (inr)                            *)
 (* ------------------------------------------------------------------------------------------ *)
